@@ -4,7 +4,7 @@
    (validated byte for byte against git 2.39.5 by the harness).  [wf_entry] = what git stores in an
    entry (ProofsEntry.v). *)
 From GixV.Base Require Import Bytes BytesFacts Outcome.
-From GixV.C24 Require Import Model Spec ProofsEntry ProofsThreads ProofsV4 ProofsFuel.
+From GixV.C24 Require Import Sha1 Model Spec ProofsEntry ProofsThreads ProofsV4 ProofsFuel ProofsFile.
 Local Open Scope N_scope.
 
 (* one version-2/3 entry as git writes it (any path length, also >= 0xfff where the length field
@@ -69,7 +69,24 @@ Proof. exact L_thread_limit_irrelevant_v23. Qed.
 Theorem entry_loop_terminates : forall v4 n d, chunk_of v4 n d <> OutOfFuel.
 Proof. exact L_chunk_of_never_out_of_fuel. Qed.
 
-(* The full statement of the property at file level; NOT proved as one theorem (see NOTES.md): it is
+(* Whole file as git writes it WITHOUT extensions (header + entries + SHA-1 trailer; versions 2, 3 and 4
+   with prefix compression): State::from_bytes returns git's version, exactly git's entries, no
+   extensions, and the trailer as checksum, for EVERY thread limit.  [sha] is any 20-byte-valued function.
+   Premise [eoie_decode … = None]: the last 32 bytes of the entry area do not happen to form a valid
+   end-of-index-entries extension (the reader, like git's, probes for it at a fixed distance from the end
+   of every file; with the hash a parameter this cannot be excluded) — see [ex_git_plain_file]. *)
+Theorem git_index_decodes_no_extensions : forall sha, (forall x, length (sha x) = 20%nat) ->
+  forall v es threads,
+  (v = 2 \/ v = 3 \/ v = 4) -> Forall wf_entry es -> N.of_nat (length es) < 4294967296 ->
+  Forall (fun e => N.of_nat (length (e_path e)) < 9223372036854775808) es ->
+  let file := git_plain_file sha v es in
+  eoie_decode sha file = None ->
+  from_bytes sha threads file =
+    Ok (mkState v es (any_sparse es) exts_default
+                (let t := sha (firstn (length file - 20) file) in if is_null t then None else Some t)).
+Proof. exact L_git_index_decodes_no_extensions. Qed.
+
+(* The full statement of the property at file level; NOT proved in general (only [git_index_decodes_no_extensions] above; see NOTES.md): it is
    tested on every generated case by the correspondence run and by prop(). *)
 Definition git_index_decodes_full_statement : Prop :=
   forall sha v blocks ieot exts eoie threads, 1 <= threads -> (v = 2 \/ v = 3 \/ v = 4) ->
@@ -113,3 +130,11 @@ Proof.
   cbv zeta. split; [|repeat split; vm_compute; reflexivity].
   repeat constructor; cbn [fst snd]; try (vm_compute; reflexivity); eexists; vm_compute; reflexivity.
 Qed.
+
+Example ex_git_plain_file :
+  let es := [ex_entry (bs "dir/file-a"); ex_entry (bs "dir/file-b")] in
+  let f4 := git_plain_file sha1 4 es in let f2 := git_plain_file sha1 2 es in
+  eoie_decode sha1 f4 = None /\ eoie_decode sha1 f2 = None /\
+  (exists st, from_bytes sha1 1 f4 = Ok st /\ s_entries st = es /\ from_bytes sha1 5 f4 = Ok st) /\
+  (exists st, from_bytes sha1 1 f2 = Ok st /\ s_entries st = es /\ s_version st = 2).
+Proof. vm_compute. repeat split; eexists; repeat split; reflexivity. Qed.
